@@ -103,7 +103,8 @@ impl Abs for char {
     fn from_abs(j: &J) -> Self { char::from_u32(j["c"].as_u64().unwrap() as u32).unwrap() }
     fn arb(rng: &mut StdRng, _d: u32) -> Self {
         loop {
-            let c = match rng.gen_range(0..4) { 0 => rng.gen_range(0..128), 1 => rng.gen_range(128..0x800), 2 => rng.gen_range(0x800..0x10000), _ => rng.gen_range(0x10000..0x110000) };
+            let c = match rng.gen_range(0..5) { 0 => rng.gen_range(0..128), 1 => rng.gen_range(128..0x800), 2 => rng.gen_range(0x800..0x10000), 3 => rng.gen_range(0x10000..0x110000),
+                                               _ => crate::gen::TRUNCATION_SPECIAL[rng.gen_range(0..crate::gen::TRUNCATION_SPECIAL.len())] as u32 };
             if let Some(c) = char::from_u32(c) { return c; }
         }
     }
